@@ -29,6 +29,26 @@ from concurrent.futures import ProcessPoolExecutor, TimeoutError as FutTimeout
 
 ROOT = os.path.dirname(os.path.dirname(os.path.abspath(__file__)))
 DEFAULT_SEED = 20261002
+_PROGRESS = None  # shared array (pid, run index + 1) per worker slot: which run each worker is executing right now
+_PROGRESS_LOCK = None
+_SLOT = [None]
+
+
+def _mark_progress(idx):
+    """Record the run this worker is in (so that a run that never returns can be named after the worker was killed)."""
+    if _PROGRESS is None:
+        return
+    if _SLOT[0] is None:
+        me = os.getpid()
+        with _PROGRESS_LOCK:
+            for k in range(0, len(_PROGRESS), 2):
+                if _PROGRESS[k] in (0, me):
+                    _PROGRESS[k] = me
+                    _SLOT[0] = k
+                    break
+        if _SLOT[0] is None:
+            return
+    _PROGRESS[_SLOT[0] + 1] = idx + 1
 
 
 def derive_seed(base: int, prop: str, index: int) -> int:
@@ -66,7 +86,9 @@ def _chunk_worker(args):
     for idx in indices:
         seed = derive_seed(base_seed, pid, idx)
         scen = mod.generate(seed, tier, idx)
+        _mark_progress(idx)
         res = run_one(mod, scen)
+        _mark_progress(-1)
         agg["runs"] += 1
         if "harness_error" in res:
             agg["harness_errors"].append((idx, res["harness_error"]))
@@ -236,9 +258,31 @@ def write_replay(pid, seed, index, tier, scenario, clause, detail, digest, facts
     return path
 
 
+def run_scenario_bounded(pid, scenario_path, limit_s):
+    """Execute one recorded scenario in a fresh process with a wall-clock bound. -> 'hang' | 'done' | 'error:<text>'"""
+    env = dict(os.environ)
+    env["DST_REPLAY_INNER"] = "1"
+    try:
+        p = subprocess.run([sys.executable, os.path.join(ROOT, "dst", "main.py"), pid, "--replay", scenario_path, "--quiet"],
+                           capture_output=True, text=True, env=env, timeout=limit_s)
+    except subprocess.TimeoutExpired:
+        return "hang"
+    return "done" if p.returncode in (0, 1) else "error:" + (p.stdout + p.stderr)[-1500:]
+
+
 def replay_file(mod, pid, path, quiet=False):
     with open(path) as f:
         rep = json.load(f)
+    if rep.get("clause", "").endswith(".hang") and not os.environ.get("DST_REPLAY_INNER"):
+        limit = float(rep.get("facts", {}).get("limit_s", getattr(mod, "HANG_S", 120)))
+        out = run_scenario_bounded(pid, path, limit)
+        if out == "hang":
+            if not quiet:
+                print(f"replay reproduces clause {rep['clause']}: the scenario does not finish within {limit:.0f} s of wall-clock time")
+            print(f"VIOLATION property={pid} replay={path}")
+            return 1
+        print(f"replay of {path}: clause {rep['clause']} not reproduced ({out[:200]})")
+        return 0 if out == "done" else 2
     res = run_one(mod, rep["scenario"])
     if "harness_error" in res:
         print("HARNESS-ERROR during replay:\n" + res["harness_error"])
@@ -317,6 +361,9 @@ def main_check(pid, argv=None):
              "violations": [], "harness_errors": [], "digests": {}, "reruns": 0, "mismatches": [], "samples": [],
              "extra": {}}
     ctx = multiprocessing.get_context("fork")
+    global _PROGRESS, _PROGRESS_LOCK
+    _PROGRESS = ctx.Array("q", 2 * 128, lock=False)
+    _PROGRESS_LOCK = ctx.Lock()
     findings_early = load_findings()
     next_index = 0
     max_runs = quick_runs if tier == "quick" else (args.runs or 10**9)
@@ -404,9 +451,31 @@ def main_check(pid, argv=None):
     exit_code = 0
     out_lines = []
 
+    hang_reports = []
     if harness_fail:
-        print("HARNESS-ERROR " + harness_fail)
-        exit_code = 2
+        # a worker was killed at its wall-clock limit (or died): was one of the runs in flight a run that never returns?
+        # Screen the runs the workers were executing, each in a fresh process under a wall-clock bound, twice.
+        limit = float(getattr(mod, "HANG_S", 120))
+        cands = sorted({int(_PROGRESS[k + 1]) - 1 for k in range(0, len(_PROGRESS), 2) if _PROGRESS[k + 1] > 0})
+        for idx in cands[:32]:
+            seed_i = derive_seed(args.seed, pid, idx)
+            scen = mod.generate(seed_i, tier, idx)
+            path = write_replay(pid, seed_i, idx, tier, scen, f"{pid}.hang",
+                                f"run {idx} does not finish within {limit:.0f} s of wall-clock time (a worker executing it was killed at its limit)",
+                                "", {"limit_s": limit, "hang": True}, None)
+            if run_scenario_bounded(pid, path, limit) == "hang" and run_scenario_bounded(pid, path, limit) == "hang":
+                hang_reports.append((idx, seed_i, path))
+                break
+            os.remove(path)
+        if hang_reports:
+            idx, seed_i, path = hang_reports[0]
+            print(f"violation clause={pid}.hang run_index={idx} seed={seed_i} (unminimised: every probe of a non-terminating scenario costs the full bound)")
+            print(f"  detail: the scenario does not finish within {limit:.0f} s of wall-clock time in a fresh process (twice); ordinary runs of this check take milliseconds to seconds")
+            print(f"VIOLATION property={pid} replay={path}")
+            exit_code = 1
+        else:
+            print("HARNESS-ERROR " + harness_fail)
+            exit_code = 2
     if total["harness_errors"]:
         idx, tb = total["harness_errors"][0]
         print(f"HARNESS-ERROR in run index {idx} ({len(total['harness_errors'])} runs affected):\n{tb}")
@@ -456,7 +525,7 @@ def main_check(pid, argv=None):
         for rec, v in unknown:
             hist[v["clause"]] = hist.get(v["clause"], 0) + 1
         print("violation clauses (not matching a known finding): " + json.dumps(hist, sort_keys=True))
-    n_viol = 0
+    n_viol = len(hang_reports)
     if unknown and mismatch_only:
         exit_code = 0  # let the fresh-process replay decide; restored to 2 below if nothing reproduces
     if unknown and exit_code == 0:
